@@ -76,6 +76,25 @@ func addrKeys(a ssa.Value, keys map[memKey]bool) {
 	}
 }
 
+// writeKeys: a store through address a changes the addressed field/element/cell itself (and, for a
+// struct value, its nested fields - added by the caller); enclosing by-value structs are unaffected
+// as far as their OTHER fields are concerned.
+func writeKeys(a ssa.Value, keys map[memKey]bool) {
+	switch x := a.(type) {
+	case *ssa.FieldAddr:
+		keys[fieldKey(FieldOf(x))] = true
+	case *ssa.IndexAddr:
+		keys[elemKey(x.X.Type())] = true
+		if pt, ok := x.X.Type().Underlying().(*types.Pointer); ok {
+			keys[elemKey(pt.Elem())] = true
+		}
+	case *ssa.Alloc:
+		keys[cellKey(x)] = true
+	case *ssa.Global:
+		keys[cellKey(x)] = true
+	}
+}
+
 // modSet computes (and caches) the set of keys a function may write, transitively through static
 // callees with bodies and closures it creates.
 func (p *Prog) modSet(fn *ssa.Function, stack map[*ssa.Function]bool) map[memKey]bool {
@@ -110,7 +129,7 @@ func (p *Prog) modSet(fn *ssa.Function, stack map[*ssa.Function]bool) map[memKey
 func instrWrites(p *Prog, in ssa.Instruction, keys map[memKey]bool, stack map[*ssa.Function]bool) {
 	switch in := in.(type) {
 	case *ssa.Store:
-		addrKeys(in.Addr, keys)
+		writeKeys(in.Addr, keys)
 		if pt, ok := in.Addr.Type().Underlying().(*types.Pointer); ok {
 			structKeys(pt.Elem(), keys, 0)
 		}
